@@ -9,7 +9,7 @@ from ..core import astutil as A
 from ..core.cfg import Cond
 from ..core.index import AnalysisError, FuncInfo
 from ..selftest import M
-from .common import (may_conds, TTF_OUTLINE, T, attr_stores, calls_named, check_forwarding, check_plumbing, conds, entails, every_origin, facts,
+from .common import (may_conds, is_early_exit_guard, TTF_OUTLINE, T, attr_stores, calls_named, check_forwarding, check_plumbing, conds, entails, every_origin, facts,
                      key, need, reached_under, subscript_stores, where)
 from .rounding import is_otround
 
@@ -102,6 +102,7 @@ def run(prog, chk):
     chk.decided += ["components are only resolved into contours by util.decomposeCompositeGlyph; no other decomposing pen / component removal outside reviewed functions (R02.11, shared with C15)"]
     chk.decided += ["per-run accumulators of the interpolatable filters are per master inside the loop over the glyph sets (R02.12, shared with C09)"]
     chk.decided += ["the outline compilers generate a glyph only for a name the glyph set lacks (R02.13, shared with C01); the .notdef they add is drawn in the output flavour's contour direction (R02.14)"]
+    chk.decided += ["in the static TrueType pipeline mixed glyphs are decomposed, unconditionally, before curves are converted (R02.15)"]
     chk.not_decided += ["the cu2qu error bound itself", "point-for-point equality", "maxp counts (fontTools recalc)"]
     chk.guard(r021, prog, chk)
     chk.guard(r022, prog, chk)
@@ -118,6 +119,7 @@ def run(prog, chk):
     from .c01 import check_only_missing_glyphs_added
     chk.guard(check_only_missing_glyphs_added, prog, chk, "R02.13")
     chk.guard(r0214, prog, chk)
+    chk.guard(r0215, prog, chk)
 
 
 def _append_of(prog, fi, ctor_name):
@@ -661,7 +663,50 @@ def r0214(prog, chk):
     chk.minimum("R02.14", 2)
 
 
+
+# ----------------------------------------------------------------------------- R02.15
+def r0215(prog, chk):
+    """Curves are converted on the outline the glyph will have: in the static TrueType pipeline every filter that
+    copies a component's outline into a glyph (decomposition of mixed glyphs) is appended before the cubic-to-quadratic
+    conversion, and unconditionally - a decomposition after the conversion would scale the conversion error by the
+    component's transformation."""
+    ix = prog.ix
+    f = ix.get_method("ufo2ft.preProcessor.TTFPreProcessor", "initDefaultFilters", own=True)
+    cfg = prog.cfg(f)
+
+    def appended(name_pred):
+        out = []
+        for c in A.body_nodes(f.node):
+            if isinstance(c, ast.Call) and isinstance(c.func, ast.Attribute) and c.func.attr in ("append", "insert", "extend") and c.args:
+                a = c.args[-1]
+                ctor = None
+                if isinstance(a, ast.Call):
+                    ctor = A.callee_name(a)
+                elif isinstance(a, ast.Name):
+                    ds = prog.reaching(f, a.id, a)
+                    cs_ = {A.callee_name(d.value) for d in ds if d.value is not None and isinstance(d.value, ast.Call)}
+                    ctor = next(iter(cs_)) if len(cs_) == 1 else None
+                if ctor and name_pred(ctor):
+                    out.append((c, ctor))
+        return out
+    decs = appended(lambda n_: n_.startswith("Decompose"))
+    convs = appended(lambda n_: n_ in ("CubicToQuadraticFilter",))
+    need(decs and convs, f"cannot interpret {f.short}: decomposition / conversion filters")
+    for q, _n in convs:
+        nq = cfg.node_of(q)
+        before = [d for d, _ in decs if cfg.dominates(cfg.node_of(d), nq) and not [g for g in may_conds(prog, f, d) if not is_early_exit_guard(prog, f, g)]]
+        after = [d for d, _ in decs if cfg.exists_path(nq, [cfg.node_of(d)])]
+        chk.ob("R02.15", f"{f.short}|mixed glyphs are decomposed, unconditionally, before curves are converted; nothing is decomposed afterwards", bool(before) and not after, where(f, q),
+               detail=f"{len(before)} decomposition filter(s) appended before the conversion, {len(after)} after",
+               message=f"{f.short}: the cubic-to-quadratic conversion is not preceded by an unconditional decomposition of mixed glyphs (or a decomposition filter follows it): component outlines "
+                       f"are converted at the base glyph's scale and copied through the component's transformation afterwards, so the error bound no longer holds for the composite")
+    chk.minimum("R02.15", 1)
+
+
 MUTANTS = [
+    M("mixed glyphs decomposed after the curve conversion (seeded C02f)", "ufo2ft/preProcessor.py", "TTFPreProcessor.initDefaultFilters",
+      "filters.append(DecomposeComponentsFilter(include=lambda g: len(g)))\nif flattenComponents:\n    from ufo2ft.filters.flattenComponents import FlattenComponentsFilter\n    filters.append(FlattenComponentsFilter())",
+      "if removeOverlaps:\n    filters.append(DecomposeComponentsFilter(include=lambda g: len(g)))\nif flattenComponents:\n    from ufo2ft.filters.flattenComponents import FlattenComponentsFilter\n    filters.append(FlattenComponentsFilter())", rule="R02.15"),
     M("custom .notdef copied without the flavour's contour direction (mutation scan run 2, k=196)", "ufo2ft/outlineCompiler.py", "BaseOutlineCompiler.makeMissingRequiredGlyphs",
       "_copyGlyph(notdefGlyph, reverseContour=reverseContour)", "_copyGlyph(notdefGlyph)", rule="R02.14"),
     M("already quadratic layers are still reversed (seeded C02e shape)", "ufo2ft/filters/cubicToQuadratic.py", "CubicToQuadraticFilter.filter",
